@@ -294,7 +294,7 @@ theorem C16_complete_guard_in_source :
        "close(m.currentComplete)"] := by decide
 
 /-- what the models of the download machinery take for granted about mutual exclusion and signalling: the mutex
-    and channel operations of every function involved (downloader, manager, the node side of a block request), with
+    and channel operations and the calls of caller-supplied functions (on-stop, handlers) of every function involved (downloader, manager, the node side of a block request), with
     the control structure and returns around them, in source order. -/
 def expectedSyncTraces : List (String × List String) := [
   ("BlockDownloader.Run", ["case{", "comm <-interrupt", "return", "}", "case{", "comm <-bd.Started",
@@ -342,7 +342,11 @@ def expectedSyncTraces : List (String × List String) := [
   ("BitcoinNode.completeBlock", ["n.Lock", "n.Unlock"]),
   ("BitcoinNode.IsBusy", ["n.Lock", "defer n.Unlock", "return"]),
   ("BitcoinNode.Stop", []),
-  ("BitcoinNode.closeConnection", ["n.connectionLock.Lock", "n.connectionLock.Unlock"])
+  ("BitcoinNode.closeConnection", ["n.connectionLock.Lock", "n.connectionLock.Unlock"]),
+  ("BitcoinNode.run", ["case{", "comm <-interrupt", "}", "case{", "comm <-readIncomingComplete", "}", "case{",
+      "comm <-sendOutgoingComplete", "}", "case{", "comm <-pingComplete", "}", "case{",
+      "comm <-time.After(n.config.Timeout.Duration)", "}", "n.Lock", "n.Unlock", "if{", "call blockOnStop", "}",
+      "return"])
 ]
 
 /-- **C16 (the locking and signalling discipline the models assume is the one in the source).** The small-step
